@@ -122,32 +122,28 @@ func (b *baseExecutor) buildSelectArgs(stmt *ast.SelectStmt, args []driver.Named
 	return selectArgs
 }
 
-// todo perfect all sql operation
+// traversalArgs collects the order of every parameter marker below node, whatever expression holds it
+// (comparison, BETWEEN, IN, LIKE, parentheses, NOT, function call, sub-query ...)
 func (b *baseExecutor) traversalArgs(node ast.Node, argsIndex *[]int32) {
 	if node == nil {
 		return
 	}
-	switch node.(type) {
-	case *ast.BinaryOperationExpr:
-		expr := node.(*ast.BinaryOperationExpr)
-		b.traversalArgs(expr.L, argsIndex)
-		b.traversalArgs(expr.R, argsIndex)
-		break
-	case *ast.BetweenExpr:
-		expr := node.(*ast.BetweenExpr)
-		b.traversalArgs(expr.Left, argsIndex)
-		b.traversalArgs(expr.Right, argsIndex)
-		break
-	case *ast.PatternInExpr:
-		exprs := node.(*ast.PatternInExpr).List
-		for i := 0; i < len(exprs); i++ {
-			b.traversalArgs(exprs[i], argsIndex)
-		}
-		break
-	case *test_driver.ParamMarkerExpr:
-		*argsIndex = append(*argsIndex, int32(node.(*test_driver.ParamMarkerExpr).Order))
-		break
+	node.Accept(&paramMarkerCollector{argsIndex: argsIndex})
+}
+
+type paramMarkerCollector struct {
+	argsIndex *[]int32
+}
+
+func (c *paramMarkerCollector) Enter(n ast.Node) (ast.Node, bool) {
+	if marker, ok := n.(*test_driver.ParamMarkerExpr); ok {
+		*c.argsIndex = append(*c.argsIndex, int32(marker.Order))
 	}
+	return n, false
+}
+
+func (c *paramMarkerCollector) Leave(n ast.Node) (ast.Node, bool) {
+	return n, true
 }
 
 func (b *baseExecutor) buildRecordImages(rowsi driver.Rows, tableMetaData *types.TableMeta, sqlType types.SQLType) (*types.RecordImage, error) {
